@@ -214,8 +214,15 @@ def ranges(ctx, g):
                     "degrees_match does not compare m(i, i+1, .) of its two chambers: " + (show(res, 1)[:100] if res else "?"), dm.span_of(bi))
         okd = True
     ctx.require(okd, "T4-degree-range", dm.name, "all", "degrees_match is an all() over index pairs", "degrees_match shape not recognised")
+    for fn in ("dsets::DSet::fold", "dsets::DSet::morphism"):
+        b = ctx.body(fn)
+        ops = [bi for bi, t in b.calls(exact="dsets::DSet::op")]
+        if ops:
+            every_iteration_reaches(ctx, "T3-no-skipped-index", b, ops[0], "index-loop->op(i, .)", "some index of the operation loop can be skipped: the map / congruence is not propagated through every operation")
     au = ctx.body("dsets::DSet::automorphisms")
     ctx.scan([au])
+    for bi, t in au.calls(exact="dsets::DSet::morphism"):
+        every_iteration_reaches(ctx, "T3-no-skipped-base-image", au, bi, "d-loop->morphism(self, self, d)", "some base image is skipped without trying to extend it to an automorphism")
     me = ("param", 1, au.debug.get(1, ""))
     ms = list(au.calls(exact="dsets::DSet::morphism"))
     ctx.floor("morphism calls in automorphisms", len(ms), 1)
